@@ -106,7 +106,8 @@ def detect(i, tier, checks):
         if a.returncode:
             print(i, "patch does not apply:", a.stdout)
             return
-        for c in (checks or [meta["property"]]):
+        tier = meta.get("detect_tier", tier)
+        for c in (checks or meta.get("detect_checks") or [meta["property"]]):
             env = dict(os.environ, VERIF_REPO=d, VERIF_EVIDENCE_DIR=os.path.join(d, "_ev"), VERIF_REPLAY_DIR=os.path.join(d, "_rp"),
                        VERIF_BUILD_ROOT=os.path.join(d, "_build"))
             t0 = time.time()
